@@ -384,7 +384,8 @@ CHECKS = {
         "max_validate": {"quick": 40, "thorough": 80},
         "groups": [
             {"pkg": "service", "run": "H16_.*", "flags": {"common": ["-unwind", "100000"]},
-             "reach": ["C16.blocked_on_stalled_subscriber", "C16.cross_blocked", "C16.blocked_on_own_ring", "C16.error_in_full_pipeline", "C16.receiver_parked_behind_error", "C16.server_close_as_ending", "C16.torn_down"]},
+             "reach": ["C16.blocked_on_stalled_subscriber", "C16.cross_blocked", "C16.blocked_on_own_ring", "C16.error_in_full_pipeline", "C16.receiver_parked_behind_error", "C16.server_close_as_ending", "C16.torn_down"], "reach_for": "H16_teardown",
+             "reach_any": ["C16.churn_then_close", "C16.truncated_packet_at_end", "C16.oversized_packet"]},
             # the subscriptions of a connection that holds them because its persistent session was restored are its own:
             # it can remove them, and they end with it (see C10)
             {"pkg": "service", "run": "H10_requalify_resumed|H10_unsubscribe_resumed", "flags": {"common": ["-unwind", "64"]}, "reach": []},
@@ -487,6 +488,8 @@ CHECKS = {
              "flags": {"common": ["-unwind", "64", "-qtimeout", "3000"], "quick": ["-bounds", "N19steps=3"], "thorough": ["-bounds", "N19steps=5"]},
              "reach": ["C19.done"]},
             {"pkg": "service", "run": "H19b_.*|H19c_.*|H19d_.*", "flags": {"common": ["-unwind", "100000"]}, "reach_any": ["C19.dead_subscriber_dropped", "C19.ping_during_large_publish"]},
+            # a client that falls silent after a packet the connection can never take in (see C16; known finding)
+            {"pkg": "service", "run": "H16_oversized_packet", "flags": {"common": ["-unwind", "100000", "-bounds", "N16ending=1"]}, "reach": ["C16.oversized_packet"]},
             # the abnormal end is complete for every kind of will (retained, empty, ...) and every ending (see C09)
             {"pkg": "service", "run": "H09_will", "flags": {"common": ["-unwind", "64"]}, "reach": ["C09.will_seen"]},
         ],
